@@ -245,9 +245,53 @@ def describe_output(out, obs_names):
                 d["observables"][k] = [{"cls": f"malformed:{type(v).__name__}", "orders": []}]
         else:
             d["meta"][k] = snap(seq_norm(v))
-    d["theory"] = snap(out.attrs.get("theory"))
-    d["cards_observables"] = snap(out.attrs.get("observables"))
+    d["theory"] = snap(_attr(out, "theory"))
+    d["cards_observables"] = snap(_attr(out, "observables"))
     return d
+
+
+_EV = [None]  # the evaluator of the running job (one job per worker call)
+
+
+def _attr(obj, name):
+    """What `obj.name` gives a user: the instance attribute, else whatever the class (or a run-time store on the class) provides."""
+    if name in obj.attrs:
+        return obj.attrs[name]
+    try:
+        return _EV[0].getattr(obj, name, None)
+    except (S.Raised, A.Undecided):
+        return None
+
+
+def history(ev, out, back, ref, names, out_cls, fs, fmt, spec):
+    """A second, different document loaded afterwards must not change what the first loaded object holds, and must itself be faithful."""
+    th2 = clone(_attr(out, "theory")) or {}
+    th2["ID"] = 4242
+    ob2 = clone(_attr(out, "observables")) or {}
+    ob2["prDIS"] = "other-card"
+    out.attrs["theory"], out.attrs["observables"] = th2, ob2
+    dropped = spec["obs"][-1] if len(spec["obs"]) > 1 else None
+    names2 = set(names)
+    if dropped:
+        out.store.pop(dropped, None)
+        names2.discard(dropped)
+    ref2 = describe_output(out, names2)
+    if fmt == "yaml":
+        doc = ev.call(ev.getattr(out, "dump_yaml", None), [], {})
+        other = ev.call(ev.getattr(S.ClassVal(ev, out_cls), "load_yaml", None), [doc], {})
+    else:
+        p = VPath(fs, "/results/other.tar")
+        ev.call(ev.getattr(out, "dump_tar", None), [p], {})
+        other = ev.call(ev.getattr(S.ClassVal(ev, out_cls), "load_tar", None), [p], {})
+    d = diff_desc(ref2, describe_output(other, names2))
+    if d:
+        return f"a second, different document loaded in the same process is not faithful: {d}"
+    d = diff_desc(ref, describe_output(back, names))
+    if d:
+        return f"loading a second, different document changes the object loaded first (state shared between loaded objects): {d}"
+    if other is back:
+        return "two loads hand out the same object"
+    return None
 
 
 def diff_desc(a, b):
@@ -336,6 +380,7 @@ def _job(spec):
         return ("undecided", f"output not foldable: {e}"[:200])
     except S.Raised as e:
         return ("undecided", f"building the output ends in {e.etype}: {e.msg} (C16 business)"[:200])
+    _EV[0] = ev
     ref = describe_output(out, names)
     out_cls = proj.cls("yadism.output", "Output")
     problems = []
@@ -359,6 +404,10 @@ def _job(spec):
             d = diff_desc(ref, describe_output(back2, names))
             if d:
                 problems.append(f"yaml via stream: {d}")
+            if not problems:
+                d = history(ev, out, back, ref, names, out_cls, fs, fmt, spec)
+                if d:
+                    problems.append(f"yaml: {d}")
         else:
             p = VPath(fs, "/results/out.tar")
             ev.call(ev.getattr(out, "dump_tar", None), [p], {})
@@ -379,6 +428,10 @@ def _job(spec):
             except S.Raised as r:
                 if r.etype != "ValueError":
                     problems.append(f"wrong suffix ends in {r.etype}")
+            if not problems:
+                d = history(ev, out, back, ref, names, out_cls, fs, fmt, spec)
+                if d:
+                    problems.append(f"tar: {d}")
     except A.Undecided as e:
         return ("undecided", f"{fmt}: {e}"[:200])
     except S.Raised as e:
